@@ -5,6 +5,7 @@ import itertools
 VARS = ["i", "j", "n"]
 ARR1 = ["a", "c"]
 ARR2 = ["b"]
+ARR3 = ["t"]
 GRID = range(-6, 7)
 
 # ---------------------------------------------------------------------------------------------
@@ -25,6 +26,8 @@ def kids(e):
         return [e[2]]
     if t == "arr2":
         return [e[2], e[3]]
+    if t == "arr3":
+        return [e[2], e[3], e[4]]
     return [e[1], e[2]]
 
 
@@ -67,8 +70,8 @@ def classes(*es):
 
 
 def lean_ok(e):
-    """expressible in the Lean IExpr (no python-only node)"""
-    return "powe" not in ops(e)
+    """expressible in the Lean IExpr (every node is, since `powe` and `arr3` were added to the model)"""
+    return True
 
 
 def degree(e, brk):
@@ -78,7 +81,7 @@ def degree(e, brk):
         return 0
     if t == "var":
         return 1
-    if t in ("arr1", "arr2", "min", "max", "mod"):
+    if t in ("arr1", "arr2", "arr3", "min", "max", "mod", "powe"):
         return 1 + max(degree(k, brk) for k in kids(e))
     if t == "neg":
         return degree(e[1], brk)
@@ -112,6 +115,8 @@ def sexp(e):
         return f"(arr1 {e[1]} {sexp(e[2])})"
     if t == "arr2":
         return f"(arr2 {e[1]} {sexp(e[2])} {sexp(e[3])})"
+    if t == "arr3":
+        return f"(arr3 {e[1]} {sexp(e[2])} {sexp(e[3])} {sexp(e[4])})"
     return "(" + t + " " + " ".join(sexp(k) for k in kids(e)) + ")"
 
 
@@ -132,6 +137,8 @@ def fortran(e):
         return f"{ARR1[e[1]]}({fortran(e[2])})"
     if t == "arr2":
         return f"{ARR2[e[1]]}({fortran(e[2])},{fortran(e[3])})"
+    if t == "arr3":
+        return f"{ARR3[e[1]]}({fortran(e[2])},{fortran(e[3])},{fortran(e[4])})"
     if t in ("mod", "min", "max"):
         return f"{t}({fortran(e[1])},{fortran(e[2])})"
     sym = {"add": "+", "sub": "-", "mul": "*", "div": "/"}[t]
@@ -142,6 +149,10 @@ def fortran(e):
 # Fortran integer semantics
 class Undefined(Exception):
     pass
+
+
+class TooBig(Undefined):
+    """valuation skipped only because the power would be astronomically large"""
 
 
 def tdiv(a, b):
@@ -163,6 +174,14 @@ def f2_poly(f, y, z):
     return (f + 1) * y - 2 * z * y + z + f
 
 
+def f3_poly(f, x, y, z):
+    return (f + 1) * x + 2 * y * z - 3 * z + x * y + f
+
+
+def f3_hash(f, x, y, z):
+    return ((x * 2654435761 + y * 2246822519 + z * 3266489917 + f * 40503 + 31) >> 8) % 23 - 11
+
+
 def f1_hash(f, z):
     return ((z * 2654435761 + f * 40503 + 12345) >> 7) % 23 - 11
 
@@ -171,7 +190,7 @@ def f2_hash(f, y, z):
     return ((y * 2654435761 + z * 2246822519 + f * 40503 + 977) >> 9) % 23 - 11
 
 
-INTERP = [(f1_poly, f2_poly), (f1_hash, f2_hash)]
+INTERP = [(f1_poly, f2_poly, f3_poly), (f1_hash, f2_hash, f3_hash)]
 
 
 def evalF(e, env, interp=INTERP[0]):
@@ -190,6 +209,8 @@ def evalF(e, env, interp=INTERP[0]):
         return interp[0](e[1], evalF(e[2], env, interp))
     if t == "arr2":
         return interp[1](e[1], evalF(e[2], env, interp), evalF(e[3], env, interp))
+    if t == "arr3":
+        return interp[2](e[1], evalF(e[2], env, interp), evalF(e[3], env, interp), evalF(e[4], env, interp))
     a = evalF(e[1], env, interp)
     b = evalF(e[2], env, interp)
     if t == "add":
@@ -210,7 +231,7 @@ def evalF(e, env, interp=INTERP[0]):
         return max(a, b)
     if t == "powe":
         if b > 4096 and abs(a) > 1:
-            raise Undefined()          # astronomically large: skip the valuation
+            raise TooBig()             # astronomically large: skip the valuation
         if b >= 0:
             return a ** b
         if a == 0:
@@ -238,6 +259,11 @@ def evalQ_py(e, env, interp=INTERP[0]):
     if t == "arr2":
         y, z = evalQ_py(e[2], env, interp), evalQ_py(e[3], env, interp)
         return Fraction(interp[1](e[1], int(y), int(z))) if y.denominator == 1 and z.denominator == 1 else Fraction(0)
+    if t == "arr3":
+        x, y, z = (evalQ_py(k, env, interp) for k in kids(e))
+        if x.denominator == 1 and y.denominator == 1 and z.denominator == 1:
+            return Fraction(interp[2](e[1], int(x), int(y), int(z)))
+        return Fraction(0)
     a, b = evalQ_py(e[1], env, interp), evalQ_py(e[2], env, interp)
     if t == "add":
         return a + b
@@ -265,8 +291,8 @@ def evalQ_py(e, env, interp=INTERP[0]):
 
 
 def ratdef(e, env):
-    """True iff e has a value over the rationals (no zero divisor) and no array / symbolic exponent"""
-    if {"arr1", "arr2", "powe"} & ops(e):
+    """True iff e has a value over the rationals (no zero divisor, moderate exponents) and no array access"""
+    if {"arr1", "arr2", "arr3"} & ops(e):
         return False
     try:
         evalQ_py(e, env)
@@ -285,7 +311,7 @@ def find_difference(e1, e2, want_equal, subst=None):
     where the values coincide.  Valuations on which either side is undefined are skipped.
     Returns None or {"env":…, "interp":k, "v1":…, "v2":…}."""
     vs = sorted(set(variables(e1)) | set(variables(e2)))
-    has_arr = bool({"arr1", "arr2"} & (ops(e1) | ops(e2)))
+    has_arr = bool({"arr1", "arr2", "arr3"} & (ops(e1) | ops(e2)))
     for k, interp in enumerate(INTERP if has_arr else INTERP[:1]):
         for vals in grid(len(vs)):
             env = [0] * len(VARS)
@@ -339,7 +365,9 @@ def gen_ext(rng, budget, nv=3, pw=None):
     if r < 0.30 and budget >= 3:
         left = rng.randint(1, budget - 2)
         return ("arr2", 0, gen_ext(rng, min(left, 3), nv, pw), gen_ext(rng, min(max(1, budget - 1 - left), 3), nv, pw))
-    if r < 0.32 and budget >= 3:
+    if r < 0.315 and budget >= 4:
+        return ("arr3", 0, gen_ext(rng, 1, nv, pw), gen_ext(rng, min(budget - 3, 2), nv, pw), gen_ext(rng, 1, nv, pw))
+    if r < 0.335 and budget >= 3:
         return ("powe", ("lit", rng.choice([2, 3])) if rng.random() < 0.6 else gen_atom(rng, nv), gen_ext(rng, min(budget - 2, 3), nv, pw))
     op = rng.choice(["add", "add", "sub", "sub", "mul", "mul", "div", "div", "mod", "min", "max"])
     left = rng.randint(1, budget - 2) if budget > 2 else 1
@@ -382,6 +410,8 @@ def rewrite(rng, e, depth=0):
         return ("arr1", e[1], rewrite(rng, e[2], depth + 1))
     if t == "arr2":
         return ("arr2", e[1], rewrite(rng, e[2], depth + 1), rewrite(rng, e[3], depth + 1))
+    if t == "arr3":
+        return ("arr3", e[1], rewrite(rng, e[2], depth + 1), rewrite(rng, e[3], depth + 1), rewrite(rng, e[4], depth + 1))
     if t == "powe":
         return ("powe", e[1], rewrite(rng, e[2], depth + 1))
     a, b = rewrite(rng, e[1], depth + 1), rewrite(rng, e[2], depth + 1)
@@ -546,11 +576,19 @@ def gen_linear_eq(rng, ext):
         e2 = free(rng.randint(1, 4))
         if rng.random() < 0.3:
             e2 = ("add", e2, x)
-    elif r < 0.8:
+    elif r < 0.78:
         e1, e2 = ("add", x, free(2)), ("add", free(2), x)        # independent / empty
-    elif r < 0.9:
+    elif r < 0.84:
         e1, e2 = ("mul", x, ("add", x, free(1))), free(2)        # quadratic
-    elif ext and r < 0.95:
+    elif ext and r < 0.93:
+        # the unknown appears in an exponent / under MOD: SymPy answers with an ImageSet, a Union, a ConditionSet ...
+        base = ("lit", rng.choice([2, 3]))
+        px = ("powe", base, rng.choice([x, ("add", x, ("lit", 1)), lin]))
+        c = ("lit", rng.choice([1, 2, 4, 8, 9]))
+        e1, e2 = rng.choice([(px, c), (("mul", x, ("sub", px, c)), ("lit", 0)), (("mul", px, ("lit", 2)), ("powe", base, ("add", x, ("lit", 1)))),
+                             (("mod", lin, ("lit", rng.choice([2, 3]))), ("lit", 1)),
+                             (("mul", ("sub", x, ("lit", 1)), ("sub", px, c)), ("lit", 0))])
+    elif ext and r < 0.96:
         # the unknown appears in an array subscript: SymPy answers with a ConditionSet
         f = rng.randrange(len(ARR1))
         e1 = ("arr1", f, lin)
@@ -581,6 +619,8 @@ class Builder:
             self.sym[a] = st.new_symbol(a, symbol_type=DataSymbol, datatype=ArrayType(INTEGER_TYPE, [10]))
         for a in ARR2:
             self.sym[a] = st.new_symbol(a, symbol_type=DataSymbol, datatype=ArrayType(INTEGER_TYPE, [10, 10]))
+        for a in ARR3:
+            self.sym[a] = st.new_symbol(a, symbol_type=DataSymbol, datatype=ArrayType(INTEGER_TYPE, [10, 10, 10]))
 
     def node(self, e):
         from psyclone.psyir.nodes import (Literal, Reference, UnaryOperation, BinaryOperation, IntrinsicCall,
@@ -602,6 +642,8 @@ class Builder:
             return ArrayReference.create(self.sym[ARR1[e[1]]], [self.node(e[2])])
         if t == "arr2":
             return ArrayReference.create(self.sym[ARR2[e[1]]], [self.node(e[2]), self.node(e[3])])
+        if t == "arr3":
+            return ArrayReference.create(self.sym[ARR3[e[1]]], [self.node(e[2]), self.node(e[3]), self.node(e[4])])
         if t in ("mod", "min", "max"):
             intr = {"mod": IntrinsicCall.Intrinsic.MOD, "min": IntrinsicCall.Intrinsic.MIN,
                     "max": IntrinsicCall.Intrinsic.MAX}[t]
@@ -647,6 +689,8 @@ def read_psyir(node):
             return ("arr1", ARR1.index(name), idx[0])
         if name in ARR2 and len(idx) == 2:
             return ("arr2", ARR2.index(name), idx[0], idx[1])
+        if name in ARR3 and len(idx) == 3:
+            return ("arr3", ARR3.index(name), idx[0], idx[1], idx[2])
         raise Unreadable(name)
     if isinstance(node, Reference):
         name = node.symbol.name.lower()
